@@ -244,6 +244,56 @@ theorem C15_list_target_all_items (E : Env) (p0 p : Parser) (reqs : List LinkReq
   rw [targetValues_list l n cfg items hk hg]
   exact mem_itemValues _ kvs w items hm hgw
 
+/-! ## the target is replaced, not merged -/
+
+/-- The write of a link REPLACES what the target held (`cfg[target_key] = value`, not a leaf-by-leaf update): whatever
+    was stored before (a mapping supplied by an old config with keys the source lacks, a spec of another class,
+    extra `dict_kwargs`, …), after `set_target_value` on a plain target the subtree at the target IS the value, so
+    below the target one reads exactly what the value holds and nothing else (1).  Hence in every successfully parsed
+    configuration (2): the subtree at a plain target equals the computed value, no key of a previously supplied value
+    survives below it, and a link without compute function and without dict coercion leaves the target equal to the
+    source's final value itself (also when that value is a namespace: a group, a class spec).  For `init_args`
+    targets the same is the `targetValues` clause of `C15_invariant`. -/
+theorem C15_target_replaced_not_merged (E : Env) (p0 p : Parser) (reqs : List LinkReq) (h : Accepted p0 reqs p)
+    (hn : nonNested p.links = true) (l : Link) (hl : l ∈ p.links) (hk : l.kind = .plain) :
+    (∀ (v : V) (old : KV), getK l.target (setTargetValue l v old) = some v ∧
+      ∀ r, r ≠ [] → getK (l.target ++ r) (setTargetValue l v old) =
+        match v with
+        | .ns sub => getK r sub
+        | _ => .none) ∧
+    (∀ (inputs : List Input) (cfg : KV) (args : List V), parse E p inputs = .ok cfg → argsOf cfg l.sources = some args →
+      ∃ v, linkValue E l args = .ok v ∧ getK l.target cfg = some v ∧
+        (∀ r, r ≠ [] → getK (l.target ++ r) cfg =
+          match v with
+          | .ns sub => getK r sub
+          | _ => .none) ∧
+        (∀ s x, l.fn = .none → l.sources = [s] → s.asDict = false → getK s.key cfg = some x →
+          getK l.target cfg = some x)) := by
+  have hne : l.target ≠ [] := (h.inv.wf l hl).1
+  have hbelow : ∀ (c : KV) (v : V), getK l.target c = some v → ∀ r, r ≠ [] →
+      getK (l.target ++ r) c = match v with
+        | .ns sub => getK r sub
+        | _ => .none := by
+    intro c v hg r hr
+    rw [getK_append l.target r c hne hr, hg]
+    cases v <;> rfl
+  refine ⟨fun v old => ?_, ?_⟩
+  · have hg := (getK_setTargetValue_target l v old).2 hk hne
+    exact ⟨hg, hbelow _ v hg⟩
+  · intro inputs cfg args hp hargs
+    obtain ⟨v, hv, _, hpl⟩ := C15_invariant E p0 p reqs h hn inputs cfg hp l hl args hargs
+    refine ⟨v, hv, hpl hk, hbelow cfg v (hpl hk), ?_⟩
+    intro s x hfn hsrc hco hgx
+    rw [hpl hk]
+    rw [hsrc] at hargs
+    simp only [argsOf, hgx] at hargs
+    cases hargs
+    unfold linkValue at hv
+    rw [hfn] at hv
+    simp only [coerceArg, hco] at hv
+    cases hv
+    rfl
+
 /-! ## subcommands: the links of the selected sub-parser, at every depth -/
 
 /-- a node of a parser tree is well-formed as far as its own links go when they were registered by accepted calls
@@ -464,11 +514,25 @@ example :
 /-- a target that is the SECOND source of an earlier link is refused -/
 example : addLinks p0Ok (reqsOk ++ [⟨[key2 "g" "p"], [], key "b", .none⟩]) = .error .targetIsSource := rfl
 
+/-- a mapping supplied for the target by an old config, with keys the group lacks (`wd`): after the parse the target
+    is the group itself -/
+example :
+    parse Ew (parserOf { actions := [arg (key2 "g" "p"), arg (key2 "g" "q"), arg (key "raw")], required := [], links := [] }
+        [⟨[key "g"], [false], key "raw", .none⟩])
+      [⟨.dflt, key2 "g" "p", .atom 3⟩, ⟨.dflt, key2 "g" "q", .atom 4⟩,
+       ⟨.config, key "raw", .ns [(sk "wd", .atom 5), (sk "p", .atom 1)]⟩]
+    = .ok [(sk "g", .ns [(sk "p", .atom 3), (sk "q", .atom 4)]), (sk "raw", .ns [(sk "p", .atom 3), (sk "q", .atom 4)])] := rfl
+
 open Jap.Gen.LinksOrder in
 /-- `apply_parsing_links`: the order of the guards the model transcribes, and of the three steps taken per source -/
 theorem C15_code_apply_guards :
     applyGuards = ["return if apply_config_skip or is_print_config_requested", "get_subcommand fail_no_subcommand=False",
       "recurse into subcommand if subcommand in cfg", "return if no _links_group", "loop over links"] ∧
     applySourceSteps = ["skip link if subclass source absent", "check source values", "read source"] := by decide
+
+open Jap.Gen.LinksOrder in
+/-- `set_target_value` writes by item assignment (replacement), in the items of a list and at the target key -/
+theorem C15_code_target_assignment :
+    setTargetWrites = ["item[child_key] = value", "cfg[target_key] = value"] := by decide
 
 end Jap.Props.C15
